@@ -27,7 +27,9 @@ THOROUGH = {
 def _win(seed):
     from harness import concdriver
     try:
-        wins, stats = concdriver.execute(seed, nwin=6, sessions=("A", "B", "C"), p_fifo=0.5 if seed % 2 else 0.75)
+        # (every other run has an external MH agent delivering while the windows' commands run)
+        wins, stats = concdriver.execute(seed, nwin=6, sessions=("A", "B", "C"), p_fifo=0.5 if seed % 2 else 0.75,
+                                         deliveries=(seed % 2 == 0))
         return seed, wins, None
     except BaseException:
         import traceback
@@ -50,7 +52,7 @@ def windows(ck):
         if err:
             raise RuntimeError(f"window harness failed (seed {seed}): {err}")
         for k, w_ in enumerate(ws):
-            wins.append({"final": w_["final"]})
+            wins.append(dict({"final": w_["final"]}, **({"settled": w_["settled"]} if w_.get("settled") else {})))
             origin.append((seed, k, w_))
     tmp = tempfile.mkdtemp(prefix="verif-c13w-")
     try:
@@ -62,12 +64,16 @@ def windows(ck):
         if not any(pr and pr[0] == "DONE" and pr[1] == len(wins) for pr in r.prints):
             raise RuntimeError("TraceWindowFile did not consume every window")
         ck.cov["concurrent_windows_file_checked"] = len(wins)
+        ck.cov["concurrent_windows_with_external_delivery"] = sum(1 for x in wins if "settled" in x)
         ck.cov["states"] += r.distinct
         ck.cov["transitions"] += r.generated
         for pr in r.prints:
             if pr and pr[0] == "VIOL":
                 seed, k, w_ = origin[pr[1] - 1]
                 acts = "+".join(sorted(c["act"] for c in w_["cmds"].values()))
+                if pr[3] == "C13.AnnouncedAfterSync":
+                    dd = [x for x in w_.get("delivered", []) if x[0] == pr[2]]
+                    acts = ("deliver-during-resync:" if any(x[2] for x in dd) else "deliver:") + acts
                 ck.violation(pr[3], act=acts, where=f"window seed {seed} #{k} mailbox {pr[2]}",
                              detail=json.dumps({c_: {x: v[x] for x in ("sess", "act", "uid", "set", "flags", "status")}
                                                 for c_, v in w_["cmds"].items()})[:300],
